@@ -7,11 +7,27 @@ from vlib import Job
 PID = 'C13'
 HERE = os.path.dirname(os.path.abspath(__file__))
 OUT = os.path.join(vlib.BUILD, 'c13')
+VL = r'std::vector<layout(, std::allocator<layout>)?>'
+VLIT = r'__gnu_cxx::__normal_iterator<(const )?layout \*, std::vector<layout.*>>'
 CFG = {
-    'names': {'(anonymous namespace)::align': 'layout_align', 'layout::reserve|layout::loc (size_t, size_t)': 'layout_reserve',
+    'types': {VL: 'vec_layout', VLIT + r'|std::vector<layout>::(const_)?iterator': 'layout *'},
+    'types_are_records': {VL: True},
+    'record_ctypes': ['vec_layout'],
+    'types_prelude': '#include "vecgen.h"\ntypedef struct layout layout;\nVERIF_VEC(vec_layout, layout);\n',
+    'extern': {VL + r'::begin': 'GVEC_BEGIN', VL + r'::end': 'GVEC_END',
+               r'__gnu_cxx::operator!=': {'c': 'GIT_NE', 'by_value': True},
+               VLIT + r'::operator\+\+': 'GIT_PREINC', VLIT + r'::operator\*': {'c': 'GIT_DEREF', 'by_value': True}},
+    'loop_contracts': {'layout_add_union': {1: '''__CPROVER_assigns(__begin1, self->m_size)
+__CPROVER_loop_invariant(__CPROVER_same_object(__begin1, layouts.data) && __CPROVER_POINTER_OFFSET(__begin1) <= layouts.len * sizeof(layout) && __CPROVER_POINTER_OFFSET(__begin1) % sizeof(layout) == 0)
+__CPROVER_loop_invariant(__end1 == layouts.data + layouts.len)
+__CPROVER_loop_invariant(self->m_size >= __CPROVER_loop_entry(self->m_size))
+__CPROVER_loop_invariant(g_k * sizeof(layout) >= __CPROVER_POINTER_OFFSET(__begin1) || self->m_size >= layouts.data[g_k].m_size)
+__CPROVER_decreases(layouts.len * sizeof(layout) - __CPROVER_POINTER_OFFSET(__begin1))'''}},
+    'bodies_prelude': 'extern size_t g_k;\n',
+    'names': {'layout::add_union': 'layout_add_union', '(anonymous namespace)::align': 'layout_align', 'layout::reserve|layout::loc (size_t, size_t)': 'layout_reserve',
               'layout::size': 'layout_size', '_ZN6layout3locC1Em': 'layout_loc_ctor'},
 }
-ROOTS = ['layout::reserve|layout::loc (size_t, size_t)', 'layout::size']
+ROOTS = ['layout::reserve|layout::loc (size_t, size_t)', 'layout::size', 'layout::add_union']
 LEX_CFG = {
     'names': {'parse_esc_num': 'lex_parse_esc_num'},
     'extern': {'memcpy': 'memcpy', 'strtoul': 'verif_strtoul'},
@@ -30,6 +46,8 @@ def jobs(tier):
     add('align', 'h_align', 'layout_align')
     add('reserve', 'h_reserve', 'layout_reserve', replace=['layout_align'])
     add('size', 'h_size', 'layout_size')
+    J.append(Job('add_union', src, 'h_add_union', enforce='layout_add_union', loop_contracts=True, includes=inc, timeout=600,
+                 inputs=['g_k'], note='range-for loop closed by a loop contract with a ghost index: any number of alternatives (<= 4096)'))
     add('two_reservations', 'h_two_reservations', None, replace=['layout_reserve'], kind='lemma',
         note='client lemma proved from the contract of reserve alone')
     lsrc = src + [os.path.join(OUT, 'lex_bodies.c')]
@@ -44,7 +62,7 @@ LEVEL = 'proof'
 TRUSTED = ['tools/cxx2c.py lowering (no native fidelity check for this unit: three loop-free functions, text compared by eye in DESIGN.md)']
 ASSUMPTIONS = [
     'alignment is a power of two (alignof of a C++ type always is) and sizes keep the area below 2^48 bytes',
-    'add_union (range-for over std::vector<layout>) is not extracted',
+    'add_union: std::vector<layout> by the generic (data,len,cap) model props/vecgen.h; contract states the lower bounds (never shrinks, at least as large as every alternative), not that it is exactly the maximum',
     'parse_esc_num: precondition = the scanner rules that call it (\\[0-3][0-7]?[0-7]? and \\x HEX HEX); strtoul by props/c13/libc_model.h (assumed contract on glibc); the operand of throw (message construction) is dropped',
     'SLICE: construct-once/destroy-once of op state, leaks, use-after-free in the op graph and parser are NOT covered by this check',
 ]
